@@ -476,7 +476,9 @@ mod multiplex {
             }
 
             // We can't modify the vector while we are traversing it, so update now.
-            for i in indices_to_remove {
+            // (from the back, each index once: removing an entry shifts the ones behind it)
+            indices_to_remove.dedup();
+            for i in indices_to_remove.into_iter().rev() {
                 fdmap.remove(&fds[i].fd);
                 fds.remove(i);
             }
